@@ -57,7 +57,7 @@ def run(tier, seed):
              # re-acquisition on return from nsync_wait_n (MODE 3), from a cv wait whose wake-up races deadline and cancellation (MODE 4),
              # through the generic entry point with caller-supplied lock callbacks and from reader-mode timed / cancellable cv waits (MODE 5, 6)
              ("cv_mix", {"VRT_MODE": 3}, 1000, 20000), ("cv_mix", {"VRT_MODE": 4}, 1000, 20000), ("cv_mix", {"VRT_MODE": 5}, 1000, 20000),
-             ("cv_mix", {"VRT_MODE": 6}, 1500, 30000), ("cv_mix", {"VRT_MODE": 6}, 600, 12000, "binary"), ("cancel_mix", {}, 1000, 20000)]
+             ("cv_mix", {"VRT_MODE": 6}, 1500, 30000), ("cv_mix", {"VRT_MODE": 6}, 600, 12000, "binary"), ("cancel_mix", {}, 1000, 20000), ("mix_all", {}, 1500, 30000)]
     oc = scen_common.run_scenarios(res, specs, tier, seed, {"C01"} | scen_common.LIVENESS | scen_common.CRASHES)
     nrun = oc["evaluations"]
     agg = oc["sched_stats"]
